@@ -266,6 +266,11 @@ def d4(ctx, rep):
         rep.ok('D4.enum', fn, fn.node.name, 'not memoised', construct='enumeration evaluated per call')
     loops = [n for n in walk_no_nested(fn.node) if isinstance(n, ast.For)]
     ok_iter = bool(loops) and isinstance(loops[0].iter, ast.Call) and call_name(loops[0].iter) == '__subclasses__'
+    elsewhere = [c for c in ast.walk(fn.node) if isinstance(c, ast.Call) and call_name(c) == '__subclasses__']
+    if not ok_iter and elsewhere:
+        rep.undecided('D4.enum', fn, elsewhere[0], 'cls.__subclasses__() is enumerated, but not by a plain loop of this method: how the filters are applied to each subclass is not derived',
+                      construct='subclass iteration')
+        return
     rep.check('D4.enum', fn, loops[0].iter if loops else fn.node.name, ok_iter, 'iterates cls.__subclasses__()',
               'candidates are not enumerated from the subclass registry', construct='subclass iteration')
     if not loops:
